@@ -12,8 +12,10 @@ import (
 
 	"github.com/cosmos/cosmos-proto/rapidproto"
 	"google.golang.org/protobuf/proto"
+	"google.golang.org/protobuf/reflect/protodesc"
 	"google.golang.org/protobuf/reflect/protoreflect"
 	"google.golang.org/protobuf/reflect/protoregistry"
+	"google.golang.org/protobuf/types/descriptorpb"
 	"google.golang.org/protobuf/types/dynamicpb"
 	"google.golang.org/protobuf/types/known/anypb"
 	"google.golang.org/protobuf/types/known/durationpb"
@@ -37,6 +39,7 @@ func init() {
 // type URLs in every accepted spelling: the type name is what follows the LAST slash
 var anyURLs = []string{"/B", "/google.protobuf.Timestamp", "/verif.impa.Point", "/verif.kinds.Scalars",
 	"type.googleapis.com/google.protobuf.Duration", "types.example.com/v1/B", "https://host.example/path/to/verif.impa.Point"}
+
 // fmDrawRange reads, from the generator's source, how many paths one draw of
 // genFieldMask yields (rapid.SliceOfN(..., lo, hi).Draw(t, "paths")). If the
 // source does not have that shape any more the range is not asserted.
@@ -217,6 +220,11 @@ func c18Types(ctx *Ctx) []c18Type {
 	}
 	if t := model.TypeByName("verif.kinds.Scalars"); t != nil {
 		out = append(out, c18Type{"dynamic:verif.kinds.Scalars", func() proto.Message { return dynamicpb.NewMessage(t.Desc) }, t.Desc})
+	}
+	if md := proto2Required(); md != nil {
+		out = append(out, c18Type{"dynamic:verif.c18.R2 (proto2, required message fields)", func() proto.Message { return dynamicpb.NewMessage(md) }, md})
+		ch := p2req.chain
+		out = append(out, c18Type{"dynamic:verif.c18.Chain (proto2, lists of messages with required fields at the nesting limit)", func() proto.Message { return dynamicpb.NewMessage(ch) }, ch})
 	}
 	return out
 }
@@ -449,8 +457,8 @@ func c18Walk(m protoreflect.Message, opts rapidproto.GeneratorOptions, mask, dep
 			if opts.NoEmptyLists && fd.Message() == nil && l.Len() == 0 && depth <= nestLimit() {
 				return fmt.Errorf("%s: empty list drawn although NoEmptyLists is set", p)
 			}
-			if opts.NoEmptyLists && opts.DisallowNilMessages && fd.Message() != nil && l.Len() == 0 && depth <= nestLimit()-1 && !(isAny && mask&4 == 0) {
-				return fmt.Errorf("%s: empty message list drawn although NoEmptyLists and DisallowNilMessages are set", p)
+			if opts.NoEmptyLists && fd.Message() != nil && l.Len() == 0 && depth <= nestLimit()-1 && !(isAny && mask&4 == 0) {
+				return fmt.Errorf("%s: empty list of messages drawn although NoEmptyLists is set", p)
 			}
 			for j := 0; j < l.Len(); j++ {
 				if fd.Message() != nil {
@@ -545,4 +553,45 @@ func replayC18(ctx *Ctx, c *Case) error {
 		}
 	}
 	return nil
+}
+
+var p2req struct {
+	once  sync.Once
+	md    protoreflect.MessageDescriptor
+	chain protoreflect.MessageDescriptor
+}
+
+// proto2Required is a proto2 message with a required message field, a required
+// scalar, a list of messages that have required fields, and linear recursion.
+func proto2Required() protoreflect.MessageDescriptor {
+	p2req.once.Do(func() {
+		opt, req, rep := descriptorpb.FieldDescriptorProto_LABEL_OPTIONAL.Enum(), descriptorpb.FieldDescriptorProto_LABEL_REQUIRED.Enum(), descriptorpb.FieldDescriptorProto_LABEL_REPEATED.Enum()
+		fdp := &descriptorpb.FileDescriptorProto{
+			Name: proto.String("verif/c18_r2.proto"), Package: proto.String("verif.c18"), Syntax: proto.String("proto2"),
+			MessageType: []*descriptorpb.DescriptorProto{
+				{Name: proto.String("Inner"), Field: []*descriptorpb.FieldDescriptorProto{
+					{Name: proto.String("v"), Number: proto.Int32(1), Label: req, Type: descriptorpb.FieldDescriptorProto_TYPE_INT32.Enum(), JsonName: proto.String("v")},
+					{Name: proto.String("s"), Number: proto.Int32(2), Label: opt, Type: descriptorpb.FieldDescriptorProto_TYPE_STRING.Enum(), JsonName: proto.String("s")},
+				}},
+				{Name: proto.String("R2"), Field: []*descriptorpb.FieldDescriptorProto{
+					{Name: proto.String("in"), Number: proto.Int32(1), Label: req, Type: descriptorpb.FieldDescriptorProto_TYPE_MESSAGE.Enum(), TypeName: proto.String(".verif.c18.Inner"), JsonName: proto.String("in")},
+					{Name: proto.String("ins"), Number: proto.Int32(2), Label: rep, Type: descriptorpb.FieldDescriptorProto_TYPE_MESSAGE.Enum(), TypeName: proto.String(".verif.c18.Inner"), JsonName: proto.String("ins")},
+					{Name: proto.String("v"), Number: proto.Int32(4), Label: req, Type: descriptorpb.FieldDescriptorProto_TYPE_INT32.Enum(), JsonName: proto.String("v")},
+				}},
+				// a chain that reaches the nesting limit: the lists hanging off its last
+				// links cannot be filled any more and must end up empty, not holding
+				// elements whose required field is unset
+				{Name: proto.String("Chain"), Field: []*descriptorpb.FieldDescriptorProto{
+					{Name: proto.String("next"), Number: proto.Int32(1), Label: opt, Type: descriptorpb.FieldDescriptorProto_TYPE_MESSAGE.Enum(), TypeName: proto.String(".verif.c18.Chain"), JsonName: proto.String("next")},
+					{Name: proto.String("ins"), Number: proto.Int32(2), Label: rep, Type: descriptorpb.FieldDescriptorProto_TYPE_MESSAGE.Enum(), TypeName: proto.String(".verif.c18.Inner"), JsonName: proto.String("ins")},
+				}},
+			},
+		}
+		fd, err := protodesc.NewFile(fdp, nil)
+		if err == nil {
+			p2req.md = fd.Messages().ByName("R2")
+			p2req.chain = fd.Messages().ByName("Chain")
+		}
+	})
+	return p2req.md
 }
